@@ -52,4 +52,115 @@ mod verif_proofs {
         assert!(os2.s_cap_height.map(|c| (c as f64 - v).abs() <= 0.5).unwrap_or(false), "VK_ASSERT os2_metric_beyond_i16_not_clamped");
         std::mem::forget(gm); std::mem::forget(os2);
     }
+
+    // ---------------------------------------------------------------------------------------------------------
+    // C17 — OS/2 derived bit fields and character indices (ulUnicodeRange1-4, ulCodePageRange1-2, usFirst/LastCharIndex).
+    // In the Kani overlay `HashSet` is verif_shim's array-backed set (T1 on this file, T1f on the two MiscMetadata
+    // fields); in the native replay it is std's. Only the API common to both is used here.
+
+    /// reference: linear scan of the table (concrete table, symbolic codepoint)
+    fn ref_range_bit(cp: u32) -> Option<u32> {
+        let mut found = None;
+        let mut i = 0;
+        while i < UNICODE_RANGES.len() {
+            let (from, to, bit) = UNICODE_RANGES[i];
+            if from <= cp && cp <= to && found.is_none() { found = Some(bit); }
+            i += 1;
+        }
+        found
+    }
+
+    /// the table the binary search runs over is sorted, rows are disjoint and well-formed, bits < 128 (concrete facts)
+    #[cfg_attr(kani, kani::proof)]
+    #[cfg_attr(kani, kani::unwind(180))]
+    pub(super) fn c17_os2_unicode_table_sorted_disjoint() {
+        let mut i = 0;
+        while i < UNICODE_RANGES.len() {
+            let (from, to, bit) = UNICODE_RANGES[i];
+            assert!(from <= to && bit < 128 && to <= 0x10FFFF, "VK_ASSERT os2_unicode_table_row_well_formed");
+            if i + 1 < UNICODE_RANGES.len() { assert!(to < UNICODE_RANGES[i + 1].0, "VK_ASSERT os2_unicode_table_sorted_disjoint"); }
+            i += 1;
+        }
+        vk_cover!(UNICODE_RANGES.len() > 100, "table is the real one");
+    }
+
+    /// one symbolic codepoint: exactly the bit of the row that contains it, plus bit 57 iff beyond the BMP, nothing else
+    #[cfg_attr(kani, kani::proof)]
+    #[cfg_attr(kani, kani::unwind(180))]
+    pub(super) fn c17_os2_unicode_range_bits_of_codepoint() {
+        let cp = vk::any_u32();
+        vk::assume(cp <= 0x10FFFF);
+        let mut set: HashSet<u32> = HashSet::new();
+        add_unicode_range_bits(&mut set, cp);
+        let want = ref_range_bit(cp);
+        let non_bmp = cp >= 0x10000;
+        if let Some(b) = want { assert!(set.contains(&b), "VK_ASSERT os2_unicode_bit_of_containing_row_set"); }
+        assert!(set.contains(&57) == (non_bmp || want == Some(57)), "VK_ASSERT os2_unicode_bit57_iff_non_bmp");
+        let n = (want.is_some() as usize) + ((non_bmp && want != Some(57)) as usize);
+        assert!(set.len() == n, "VK_ASSERT os2_unicode_no_other_bits");
+        vk_cover!(want.is_some() && non_bmp, "supplementary-plane codepoint inside a row");
+        vk_cover!(want.is_none() && !non_bmp, "BMP codepoint in no row");
+        vk_cover!(want == Some(9) && cp > 0x4FF, "second row of a shared bit");
+        std::mem::forget(set);
+    }
+
+    fn word_bit(words: [u32; 4], bit: u32) -> bool { words[(bit / 32) as usize] >> (bit % 32) & 1 == 1 }
+
+    /// explicitly assigned bits are packed into the four words: bit b -> word b/32, position b%32; nothing else set
+    #[cfg_attr(kani, kani::proof)]
+    #[cfg_attr(kani, kani::unwind(6))]
+    pub(super) fn c17_os2_unicode_range_packing() {
+        let (b1, b2, probe) = (vk::any_u8() as u32, vk::any_u8() as u32, vk::any_u8() as u32);
+        vk::assume(b1 < 128 && b2 < 128 && probe < 128);
+        let mut bits: HashSet<u32> = HashSet::new();
+        bits.insert(b1); bits.insert(b2);
+        let cps: HashSet<u32> = HashSet::new();
+        let mut os2 = Os2::default();
+        apply_unicode_range(&mut os2, Some(bits), &cps);
+        let words = [os2.ul_unicode_range_1, os2.ul_unicode_range_2, os2.ul_unicode_range_3, os2.ul_unicode_range_4];
+        assert!(word_bit(words, probe) == (probe == b1 || probe == b2), "VK_ASSERT os2_unicode_range_packing");
+        vk_cover!(b1 == 31 && b2 == 32, "word boundary");
+        vk_cover!(b1 == 127, "last bit");
+        std::mem::forget(cps); std::mem::forget(os2);
+    }
+
+    /// code-page bits: packing of assigned bits into the two words
+    #[cfg_attr(kani, kani::proof)]
+    #[cfg_attr(kani, kani::unwind(6))]
+    pub(super) fn c17_os2_codepage_range_packing() {
+        let (b1, b2, probe) = (vk::any_u8() as u32, vk::any_u8() as u32, vk::any_u8() as u32);
+        vk::assume(b1 < 64 && b2 < 64 && probe < 64);
+        let mut bits: HashSet<u32> = HashSet::new();
+        bits.insert(b1); bits.insert(b2);
+        let cps: HashSet<u32> = HashSet::new();
+        let mut os2 = Os2::default();
+        apply_codepage_range(&mut os2, Some(bits), &cps);
+        let w = [os2.ul_code_page_range_1.unwrap_or(0), os2.ul_code_page_range_2.unwrap_or(0)];
+        let got = w[(probe / 32) as usize] >> (probe % 32) & 1 == 1;
+        assert!(got == (probe == b1 || probe == b2), "VK_ASSERT os2_codepage_range_packing");
+        assert!(os2.ul_code_page_range_1.is_some() && os2.ul_code_page_range_2.is_some(), "VK_ASSERT os2_codepage_fields_present");
+        vk_cover!(b1 == 31 && b2 == 32, "word boundary");
+        std::mem::forget(cps); std::mem::forget(os2);
+    }
+
+    // codepage_range_bits itself (the character match over a HashSet<char>) and apply_unicode_range without assigned bits were
+    // harnessed and did not fit: 15+ min / out of memory at 8 GB even with one symbolic codepoint (DESIGN 0a round 2).
+
+    /// usFirstCharIndex / usLastCharIndex: min and max codepoint, each capped at 0xFFFF
+    #[cfg_attr(kani, kani::proof)]
+    #[cfg_attr(kani, kani::unwind(6))]
+    pub(super) fn c17_os2_min_max_char_index() {
+        let (c1, c2, c3) = (vk::any_u32(), vk::any_u32(), vk::any_u32());
+        vk::assume(c1 <= 0x10FFFF && c2 <= 0x10FFFF && c3 <= 0x10FFFF);
+        let mut cps: HashSet<u32> = HashSet::new();
+        cps.insert(c1); cps.insert(c2); cps.insert(c3);
+        let mut os2 = Os2::default();
+        apply_min_max_char_index(&mut os2, &cps);
+        let lo = c1.min(c2).min(c3).min(0xFFFF) as u16;
+        let hi = c1.max(c2).max(c3).min(0xFFFF) as u16;
+        assert!(os2.us_first_char_index == lo && os2.us_last_char_index == hi, "VK_ASSERT os2_min_max_char_index");
+        vk_cover!(c1 > 0xFFFF && c2 < 0x80 && c3 == c2, "supplementary codepoint, duplicate");
+        vk_cover!(c1 > 0xFFFF && c2 > 0xFFFF && c3 > 0xFFFF, "all beyond the BMP");
+        std::mem::forget(cps); std::mem::forget(os2);
+    }
 }
